@@ -127,7 +127,7 @@ func mapOrderSensitive(outcome string) bool {
 			if len(h) < 8 || len(h)%2 != 0 {
 				continue
 			}
-			b, err := hexDecode(h)
+			b, err := semHexDecode(h)
 			if err != nil {
 				continue
 			}
@@ -140,7 +140,7 @@ func mapOrderSensitive(outcome string) bool {
 	return false
 }
 
-func hexDecode(h string) ([]byte, error) {
+func semHexDecode(h string) ([]byte, error) {
 	b := make([]byte, len(h)/2)
 	for i := 0; i < len(b); i++ {
 		var x byte
